@@ -154,6 +154,10 @@ func main() {
 				all = world.CmpOps
 			case "Unary":
 				all = world.UnaryOps
+			case "Reduce":
+				all = world.ReduceOps
+			case "Arg":
+				all = world.ArgOps
 			}
 			subs = nil
 			if *opsF == "all" {
